@@ -259,6 +259,13 @@ MALFORMED = [
     '-5s', '-5', '+5s', '- 5s', '1e3s', '1e3', '1E3', '1.2.3s', '1,2,3', '1.2,3', '1..2s',
     '1_000s', '0x10', '1h 2 m 3 x', '1h;2m', '1h,2m', '1h+2m', 'one hour', '1 hour', '1hr',
     '1min', '1sec', '5ss', '5mm', '1w', '1y', 'inf', 'nan', 'PT5', 'P5', '5P', 'PT5S5',
+    # characters outside ASCII that only look like digits, blanks or unit symbols (Arabic-Indic,
+    # full-width and Devanagari digits; no-break, thin, ideographic space, separators FS..US;
+    # LATIN SMALL LETTER LONG S, which case-folds to 's')
+    '\u0663m', '\u0661\u0662s', '1\u0663s', '\uff11\uff12s', '\uff15', '\u0967h', 'PT\u0665S', 'P\u0664D',
+    'P1DT\uff12H', '1.\u0665s', '1h\u00a030m', '\u00a01h', '1h\u2009', '1\u2009h', '1d\u30002h',
+    '1h\x1c2m', '\x1f5s', '5s\x1d', 'PT1H\u00a0', '\u2003P1D', '5\u017f', '1m5\u017f', '1m 5 \u017f',
+    '1\u212a', '1\u0131', '1\u0130',
 ]
 
 
